@@ -241,6 +241,26 @@ KERNELS = [
 ]
 
 
+# every C/C++ source that implements a per-frame kernel: none of them may keep state between calls
+KERNEL_FILES = ["mdtraj/geometry/src/sasa.cpp", "mdtraj/geometry/src/dssp.cpp", "mdtraj/geometry/src/geometry.cpp",
+                "mdtraj/geometry/src/neighbors.cpp", "mdtraj/geometry/src/neighborlist.cpp", "mdtraj/geometry/src/dridkernels.cpp",
+                "mdtraj/geometry/src/moments.cpp", "mdtraj/geometry/src/kernels/distancekernels.h",
+                "mdtraj/geometry/src/kernels/anglekernels.h", "mdtraj/geometry/src/kernels/dihedralkernels.h",
+                "mdtraj/rmsd/src/center.cpp", "mdtraj/rmsd/src/center_sse.h", "mdtraj/rmsd/src/rotation.cpp",
+                "mdtraj/rmsd/src/rotation_sse.h", "mdtraj/rmsd/src/theobald_rmsd.cpp", "mdtraj/rmsd/src/theobald_rmsd_sse.h"]
+
+
+def static_state(repo=None):
+    from props import C08_scan
+    repo = repo or common.REPO
+    out = []
+    for rel in KERNEL_FILES:
+        with open(os.path.join(repo, rel)) as fh:
+            for v in C08_scan.file_static_state(fh.read()):
+                out.append("%s:%s" % (os.path.basename(rel), v))
+    return out
+
+
 def scan_kernels(repo=None):
     """[(name, Term)] for KERNELS; raises C08_scan.ScanError when a source is outside the scanner's grammar."""
     from props import C08_scan
@@ -257,7 +277,7 @@ def scan_kernels(repo=None):
     return out
 
 
-def gen_kernels_text(scanned):
+def gen_kernels_text(scanned, statics=()):
     lines = ["(* GENERATED on every run by harness/props/C08.py + C08_scan.py from mdtraj's C/C++ sources: one term of",
              "   MD.Sched.FrameLoop per per-frame loop (and per per-call kernel, whose body is the iteration and whose only",
              "   possible carried state is static / file-scope variables).  Per-run obligations: every term is disciplined",
@@ -281,6 +301,12 @@ def gen_kernels_text(scanned):
     lines.append("Lemma scanned_kernels_disciplined : forallb (fun k => fdisc (snd k)) scanned_kernels = true.")
     lines.append("Proof. vm_compute. reflexivity. Qed.")
     lines.append("Lemma percall_kernels_stateless : percall_static_written = [].")
+    lines.append("Proof. reflexivity. Qed.")
+    lines.append("(* mutable file-scope variables and static locals found in the kernel source files (sasa.cpp, dssp.cpp, geometry.cpp,")
+    lines.append("   neighbors.cpp, neighborlist.cpp, dridkernels.cpp, moments.cpp, the kernel headers, the rmsd sources): state that")
+    lines.append("   outlives a call *)")
+    lines.append("Definition kernel_files_static_state : list string := %s." % clist([cstr(s) for s in statics]))
+    lines.append("Lemma kernel_files_stateless : kernel_files_static_state = [].")
     lines.append("Proof. reflexivity. Qed.")
     return "\n".join(lines) + "\n"
 
@@ -307,7 +333,9 @@ def translate(ctx):
     # 1. every per-frame loop / per-call kernel -> a term of MD.Sched.FrameLoop (fail closed: file not refreshed)
     try:
         scanned = scan_kernels()
-        ctx.write_gen("Gen/SchedKernels.v", gen_kernels_text(scanned))
+        statics = static_state()
+        ctx.write_gen("Gen/SchedKernels.v", gen_kernels_text(scanned, statics))
+        ce["kernel_files_static_state"] = statics
         ce["frame_loops_scanned_from_source"] = {n: len(T.ops) for n, _r, _m, _f, T in scanned}
         ce["percall_static_written"] = [s for _n, _r, m, f, T in scanned if m == "call" for s in T.shared]
     except Exception as e:
@@ -332,7 +360,11 @@ def diagnose_kernels(ctx):
     rc, out = ctx.coq_eval(["MD.Sched.FrameLoop"], expr, prelude="Open Scope Z_scope.\n" + defs)
     bad = re.findall(r'\("(\w+)"%string,\s*false\)', out)
     stat = [s for _n, _r, m, f, T in scanned if m == "call" for s in ["%s:%s" % (f, v) for v in T.shared]]
-    return {"undisciplined": bad, "percall_static_written": stat}
+    try:
+        statics = static_state()
+    except Exception as e:
+        statics = "scanner: %s" % e
+    return {"undisciplined": bad, "percall_static_written": stat, "kernel_files_static_state": statics}
 
 
 # ------------------------------------------------------------------------------------------ environments / inputs
@@ -347,7 +379,7 @@ def trajs_for(ctx):
            {"id": "rand-box", "kind": "random", "n_atoms": rng.choice([24, 40, 56]), "n_frames": rng.choice([4, 6, 9]),
             "seed": rng.randrange(10 ** 6), "box": True}]
     out.append({"id": "rand-nobox", "kind": "random", "n_atoms": rng.choice([33, 64]), "n_frames": rng.choice([3, 8, 12]),
-                "seed": rng.randrange(10 ** 6), "box": False})
+                "seed": rng.randrange(10 ** 6), "box": False, "env_every": 2 if quick else 1})
     # cells that change kind and size from frame to frame; first frame rectangular in one, sheared in the other
     pats = list(CELL_PATTERNS)
     rng.shuffle(pats)
@@ -366,6 +398,10 @@ def trajs_for(ctx):
     # a large system for the numpy / BLAS based analyses (blocking and BLAS threading depend on the batch size)
     out.append({"id": "large", "kind": "random", "n_atoms": 1500 if quick else 3200, "n_frames": 9 if quick else 220,
                 "seed": rng.randrange(10 ** 6), "box": True, "only": NUMERIC, "env_every": 3 if quick else 4})
+    # rare events: >= 24 near-copies of one protein frame in which a few hydrogen bonds exist in exactly 1-2 frames
+    out.append({"id": "rare-hbonds", "kind": "rare", "path": pdb, "frame": rng.randrange(20), "n_frames": 24 if quick else 48,
+                "seed": rng.randrange(10 ** 6), "n_event_frames": rng.choice([1, 2]), "only": RARE_ONLY, "sub": True,
+                "env_every": 4 if quick else 2})
     pf = sorted(rng.sample(range(20), 5))
     out.append({"id": "2EQQ-cellmix", "kind": "file", "path": pdb, "frames": pf, "cell": rng.choice(["OTTOT", "OOTTO"]),
                 "cell_seed": rng.randrange(10 ** 6), "cell_size": [2.6, 3.6], "only": PERIODIC, "env_every": 3 if quick else 1})
@@ -379,11 +415,22 @@ def trajs_for(ctx):
         out.append({"id": "2EQQ-all", "kind": "file", "path": pdb, "frames": list(range(20)), "box": False})
         out.append({"id": "one-frame", "kind": "random", "n_atoms": 32, "n_frames": 1, "seed": rng.randrange(10 ** 6), "box": True})
         out.append({"id": "rand-big", "kind": "random", "n_atoms": 400, "n_frames": 17, "seed": rng.randrange(10 ** 6), "box": True})
+    other_protein = os.path.join(common.REPO, "tests/data/1bpi.pdb")
+    for tr in out:
+        if tr["kind"] in ("file", "rare"):
+            tr["prime_protein"] = other_protein
+        if not quick or tr["id"] in ("rand-box", "2EQQ"):
+            tr["sub"] = True
     return out
 
 
 def n_frames_of(spec):
     return len(spec["frames"]) if spec["kind"] == "file" else spec["n_frames"]
+
+
+# analyses that prefilter / aggregate over the frames of a call, or whose per-frame result is a discrete event list
+RARE_ONLY = ["wernet_nilsson", "baker_hubbard_1", "baker_hubbard_union", "kabsch_sander", "dssp", "contacts", "contacts_ca",
+             "contacts_heavy_softmin", "neighbors", "neighbors_haystack", "neighborlist", "distances"]
 
 
 def envs_for(ctx, fmax):
@@ -394,7 +441,7 @@ def envs_for(ctx, fmax):
     if quick:
         for i, t in enumerate(threads):
             envs.append({"OMP_NUM_THREADS": str(t), "OMP_SCHEDULE": scheds[i % 3]})
-        for i, t in enumerate(threads[1:]):
+        for i, t in enumerate([2, 5, 16]):
             envs.append({"OMP_NUM_THREADS": str(t), "OMP_SCHEDULE": scheds[(i + 2) % 3]})
         envs.append({"OMP_NUM_THREADS": "2", "OMP_SCHEDULE": "static", "OMP_DYNAMIC": "true"})
         envs.append({"OMP_NUM_THREADS": "3", "OMP_SCHEDULE": "guided", "OMP_DYNAMIC": "true"})
@@ -415,17 +462,18 @@ def env_name(e):
     return "thr=%s,%s%s" % (e["OMP_NUM_THREADS"], e.get("OMP_SCHEDULE", "-"), ",dyn" if e.get("OMP_DYNAMIC") else "")
 
 
-def run_env(ctx, env, trajs, analyses, repeats, perm_seed, timeout=900):
+def run_env(ctx, env, trajs, analyses, repeats, perm_seed, timeout=900, history=False):
     e = dict(env)
     e["OMP_WAIT_POLICY"] = "passive"       # do not spin on an oversubscribed machine (does not affect results)
     for k in ("OPENBLAS_NUM_THREADS", "MKL_NUM_THREADS", "NUMEXPR_NUM_THREADS"):
         e[k] = env["OMP_NUM_THREADS"]       # numpy's BLAS follows the same thread count
-    return ctx.run_impl("sched_impl.py", {"trajs": trajs, "analyses": analyses, "perm_seed": perm_seed, "repeats": repeats},
+    return ctx.run_impl("sched_impl.py", {"trajs": trajs, "analyses": analyses, "perm_seed": perm_seed, "repeats": repeats,
+                                          "history": bool(history)},
                         env=e, timeout=timeout)["results"]
 
 
 # ------------------------------------------------------------------------------------------ the sweep
-def sweep(ctx, trajs, envs, analyses, repeats, perm_seed):
+def sweep(ctx, trajs, envs, analyses, repeats, perm_seed, history=None):
     """Returns nothing; reports through ctx."""
     base_alone = {}        # (traj, analysis) -> hashes of frames computed alone (must be the same in every environment)
     sasa_obs = []          # (env, traj id, analysis, n_frames, fresh-frame list, arithmetic ok)
@@ -433,19 +481,27 @@ def sweep(ctx, trajs, envs, analyses, repeats, perm_seed):
     stats = {"triples": 0, "hash_comparisons": 0}
     dead = set()           # analyses that killed / hung the interpreter: reported once, then left out
     all_trajs = trajs
-    # the environments are independent processes: run two at a time, evaluate in order
+    # the environments are independent processes: run three at a time, evaluate in order
     from concurrent.futures import ThreadPoolExecutor
 
     def trajs_of(ei):
         # the special-purpose trajectories go through every k-th environment (always through the first)
         return [t for t in all_trajs if len(envs) <= 2 or ei % t.get("env_every", 1) == 0]
 
+    # call-history pass (same analyses again after the process served other calls of the same functions): in a few
+    # environments only - it is a property of the process, not of the OpenMP settings
+    if history is None:
+        hist_envs = {0, 4} if ctx.tier == "quick" else set(range(0, len(envs), 5))
+    else:
+        hist_envs = set(range(len(envs))) if history else set()
+
     def first_try(ei):
         try:
-            return run_env(ctx, envs[ei], trajs_of(ei), list(analyses), repeats, perm_seed, timeout=300 if ctx.tier == "quick" else 900)
+            return run_env(ctx, envs[ei], trajs_of(ei), list(analyses), repeats, perm_seed,
+                           timeout=400 if ctx.tier == "quick" else 1500, history=ei in hist_envs)
         except (RuntimeError, subprocess.TimeoutExpired) as e:
             return e
-    with ThreadPoolExecutor(max_workers=2) as pool:
+    with ThreadPoolExecutor(max_workers=3) as pool:
         firsts = list(pool.map(first_try, range(len(envs))))
     for ei, env in enumerate(envs):
         live = [a for a in analyses if a not in dead]
@@ -453,7 +509,8 @@ def sweep(ctx, trajs, envs, analyses, repeats, perm_seed):
         try:
             if isinstance(firsts[ei], Exception):
                 if dead:       # an analysis already known to crash was still in the first attempt: retry without it
-                    res = run_env(ctx, env, trajs, live, repeats, perm_seed, timeout=300 if ctx.tier == "quick" else 900)
+                    res = run_env(ctx, env, trajs, live, repeats, perm_seed, timeout=400 if ctx.tier == "quick" else 1500,
+                                  history=ei in hist_envs)
                 else:
                     raise firsts[ei]
             else:
@@ -471,7 +528,7 @@ def sweep(ctx, trajs, envs, analyses, repeats, perm_seed):
                     if name in dead:
                         break
                     try:
-                        r1 = run_env(ctx, env, [tr], [name], repeats, perm_seed, timeout=120)
+                        r1 = run_env(ctx, env, [tr], [name], repeats, perm_seed, timeout=120, history=ei in hist_envs)
                         res.setdefault(tr["id"], {}).update(r1.get(tr["id"], {}))
                     except (RuntimeError, subprocess.TimeoutExpired) as e1:
                         found = True
@@ -493,7 +550,7 @@ def sweep(ctx, trajs, envs, analyses, repeats, perm_seed):
                              tags={"analysis": a, "kind": "parallel_flag", "explained_by": None})
             for name, rec in rr.items():
                 case = {"env": env, "traj": [t for t in all_trajs if t["id"] == tid][0], "analysis": name,
-                        "repeats": repeats, "perm_seed": perm_seed}
+                        "repeats": repeats, "perm_seed": perm_seed, "history": ei in hist_envs}
                 F = nf[tid]
                 thr = int(env["OMP_NUM_THREADS"])
                 ctx.count(case, nontrivial=F >= 2, bucket="%s/%s" % (name, en))
@@ -513,6 +570,11 @@ def sweep(ctx, trajs, envs, analyses, repeats, perm_seed):
                     bad.append(("repeat", "two identical calls in one process differ"))
                 fresh = [i for i in range(F) if rec["company"][i] == rec["alone"][i]]
                 fresh_p = [i for i in range(F) if rec["perm"][i] == rec["alone"][i]]
+                if rec.get("history_equal") is False:
+                    bad.append(("history", "the same call gives other bits after the process has served other calls of the same "
+                                           "functions (other atom count / cell / parameters)"))
+                if rec.get("sub_ok") is False:
+                    bad.append(("subselection", "frames differ when a short sub-selection of the trajectory is analysed"))
                 if len(fresh) != F:
                     bad.append(("alone", "frames %s differ from the same frames computed alone" % [i for i in range(F) if i not in fresh]))
                 if len(fresh_p) != F:
@@ -520,6 +582,10 @@ def sweep(ctx, trajs, envs, analyses, repeats, perm_seed):
                 if not bad:
                     continue
                 kinds = sorted({k for k, _ in bad})
+                if "threads" in kinds:
+                    case["base_env"] = envs[0]
+                    case["base_history"] = 0 in hist_envs
+                    case["context_trajs"] = list(all_trajs)
                 if name in SASA and set(kinds) <= {"alone", "perm"}:
                     sasa_obs.append((env, tid, name, F, fresh, fresh_p, rec, case))
                     continue
@@ -668,4 +734,12 @@ def replay(ctx, rec):
             stress_shared_counter(ctx)
         return
     names = [c["analysis"]] + ([c["pair"]] if c.get("pair") else [])
-    sweep(ctx, [c["traj"]], [c["env"]], names, c.get("repeats", 2), c.get("perm_seed", 1))
+    if c.get("base_env") is not None and c["base_env"] != c["env"]:
+        # a difference between two processes: rebuild both, each over the trajectories it had served
+        trajs = c.get("context_trajs") or [c["traj"]]
+        for tr in trajs:
+            tr.pop("env_every", None)
+        sweep(ctx, trajs, [c["base_env"], c["env"]], names, c.get("repeats", 2), c.get("perm_seed", 1),
+              history=bool(c.get("base_history") or c.get("history")))
+        return
+    sweep(ctx, [c["traj"]], [c["env"]], names, c.get("repeats", 2), c.get("perm_seed", 1), history=bool(c.get("history")))
